@@ -15,6 +15,9 @@ from . import core
 from .core import SV, SC, SI, SB, zr, zc, Inconclusive, PathAbort
 
 
+SOM_BLOWUP = 10 ** 8
+
+
 class Violation(BaseException):
     def __init__(self, cand):
         super().__init__(cand.get('label'))
@@ -205,13 +208,34 @@ class SymCtx(_Base):
             xr, xi = zc(x)
             yr, yi = zc(y)
             if not xr.eq(yr):
-                diffs.append(xr != yr); idx.append(k)
+                diffs.append((xr, yr)); idx.append(k)
             if not xi.eq(yi):
-                diffs.append(xi != yi); idx.append(k)
+                diffs.append((xi, yi)); idx.append(k)
         self.stats.obligations += 1
         if not diffs:
             self.stats.concrete_checks += 1
             self._sample(label, 'identical-terms', len(fx))
+            return
+        # polynomial identities: z3's rewriter in sum-of-monomials mode (blow-up limit lifted) rewrites lhs - rhs to 0 for most
+        # obligations; what it cannot close (assumption-dependent goals, genuine differences) is left to the SMT solver under the
+        # path condition and the assumptions, with the simplified difference as the goal
+        keep, kidx, closed = [], [], 0
+        t0 = __import__('time').time()
+        for k, (l, r) in zip(idx, diffs):
+            try:
+                z = z3.simplify(l - r, som=True, som_blowup=SOM_BLOWUP)
+            except z3.Z3Exception:
+                keep.append(l != r); kidx.append(k); continue
+            if z3.is_rational_value(z) and z.numerator_as_long() == 0:
+                closed += 1
+                continue
+            keep.append(z != 0); kidx.append(k)
+        self.stats.solver_s += __import__('time').time() - t0
+        diffs, idx = keep, kidx
+        if not diffs:
+            self.stats.queries += 1
+            self.stats.unsat += 1
+            self._sample(label, 'unsat: every lhs - rhs rewrites to 0 (z3 simplify, sum-of-monomials normal form)', len(fx))
             return
         goal = z3.Or(diffs) if len(diffs) > 1 else diffs[0]
         r, model = E.decide(goal, self.query_timeout_ms)
